@@ -318,6 +318,24 @@ func vfHammerRound(e *vfEnv, r *vfResult, idx int, loopback bool) { //nolint:cyc
 			}
 		}(g)
 	}
+	if withRestart {
+		// a restarter per agent: Restart immediately followed by GatherCandidates, so that gathering cycles (which run
+		// outside the task loop) overlap the next Restart
+		for _, h := range []*vfHammerAgent{ha, hb} {
+			wg.Add(1)
+			go func(h *vfHammerAgent) {
+				defer wg.Done()
+				rrng := rand.New(rand.NewPCG(e.seed+uint64(idx)*7, 99)) //nolint:gosec
+				for time.Now().Before(deadline) {
+					_ = h.a.Restart("", "")
+					h.hit("Restart")
+					_ = h.a.GatherCandidates()
+					h.hit("GatherCandidates")
+					time.Sleep(time.Duration(rrng.IntN(4000)) * time.Microsecond)
+				}
+			}(h)
+		}
+	}
 	wg.Wait()
 	// concurrent closers (Close, GracefulClose, Conn.Close) while API calls still arrive
 	var cw sync.WaitGroup
